@@ -81,7 +81,7 @@ theorem pool_solvent_block {L : Ledger} {b : Block} {pid : Id} {msv : Mid}
     (hcov : IdListsCover L b pid) (hv : validateBlock L b pid = .ok msv) :
     ∀ L' ms, applyBlock L b = .ok (L', ms) →
       CsOkL L' ∧ L.pool ≤ L'.pool ∧ PsiL L' + 10000 * b.claims L ≤ PsiL L + (L'.pool - L.pool) * SFtot L := by
-  obtain ⟨ms, hm, _, _, _, _, hpl, hsv⟩ := block_conserves hw hf hfix hnw hcov hv
+  obtain ⟨ms, hm, _, _, _, _, hpl, hsv, _⟩ := block_conserves hw hf hfix hnw hcov hv
   intro L' ms' h
   unfold applyBlock at h; rw [hm] at h; cases h
   obtain ⟨c, q⟩ := hsv ((csOk_newMid L).mpr hcs)
